@@ -2,6 +2,7 @@ package main
 
 import (
 	"go/token"
+	"strings"
 
 	"golang.org/x/tools/go/ssa"
 )
@@ -215,6 +216,8 @@ func checkTypedUpcastWrapper(c *Ctx, p *Prog, R *BusRoles, rule string) {
 	var wrap *ssa.Function
 	var regCall ssa.CallInstruction
 	var helperSite *ssa.Call // RegisterUpcast's call of the helper that builds the closure, if any
+	var boundRecv ssa.Value  // the struct value a registered method value is bound to, if any
+	dataIdx := 0             // index of the wrapper's data parameter
 	for _, b := range reg.Blocks {
 		for _, in := range b.Instrs {
 			if ci, ok := in.(ssa.CallInstruction); ok {
@@ -226,6 +229,26 @@ func checkTypedUpcastWrapper(c *Ctx, p *Prog, R *BusRoles, rule string) {
 					}
 					if mc, ok := stripConv(v).(*ssa.MakeClosure); ok {
 						wrap = mc.Fn.(*ssa.Function)
+						// a method value of a small adapter struct: read the method's body, with the
+						// receiver standing for the bound struct value
+						if strings.HasPrefix(wrap.Synthetic, "bound method wrapper") && len(mc.Bindings) == 1 {
+							var inner *ssa.Function
+							for _, wb := range wrap.Blocks {
+								for _, win := range wb.Instrs {
+									if wc, ok := win.(ssa.CallInstruction); ok {
+										if sc := wc.Common().StaticCallee(); sc != nil {
+											inner = sc
+										}
+									}
+								}
+							}
+							if inner != nil && inner.Origin() != nil {
+								inner = inner.Origin()
+							}
+							if inner != nil && PkgOf(inner) == PkgBus && len(inner.Params) == 2 {
+								wrap, boundRecv, dataIdx = inner, mc.Bindings[0], 1
+							}
+						}
 					}
 					// the closure may be built by an in-package helper that returns it
 					if hc, ok := stripConv(v).(*ssa.Call); ok {
@@ -279,7 +302,7 @@ func checkTypedUpcastWrapper(c *Ctx, p *Prog, R *BusRoles, rule string) {
 	al, isAlloc := target.(*ssa.Alloc)
 	c.Check(isAlloc && al.Parent() == wrap, rule, name+"/fresh-decode-target", p.Pos(unm.Pos()), "the source value is decoded into a variable allocated by this call", "the source value is decoded into storage shared between calls (captured variable / pool): fields absent from one payload keep the values of an earlier event")
 	// data parameter decoded
-	c.Check(stripConv(unm.Common().Args[0]) == ssa.Value(wrap.Params[0]), rule, name+"/decodes-its-input", p.Pos(unm.Pos()), "decodes the data it is given", "the wrapper does not decode its input data")
+	c.Check(stripConv(unm.Common().Args[0]) == ssa.Value(wrap.Params[dataIdx]), rule, name+"/decodes-its-input", p.Pos(unm.Pos()), "decodes the data it is given", "the wrapper does not decode its input data")
 	// user function applied to the decoded value
 	okUser := false
 	if isAlloc && len(user.Common().Args) == 1 {
@@ -308,6 +331,33 @@ func checkTypedUpcastWrapper(c *Ctx, p *Prog, R *BusRoles, rule string) {
 				var up func(v ssa.Value, site *ssa.Call) ssa.Value
 				up = func(v ssa.Value, site *ssa.Call) ssa.Value {
 					v = stripConv(v)
+					// a field of the bound receiver: what the composite literal put there
+					if _, _, base, ok := fieldLoad(v); ok && boundRecv != nil {
+						base = stripConv(base)
+						if a0, ok := base.(*ssa.Alloc); ok {
+							if w := wholeStore(a0); w != nil {
+								base = stripConv(w)
+							}
+						}
+						if pr, ok := base.(*ssa.Parameter); ok && pr == wrap.Params[0] {
+							idx := -1
+							switch x := v.(type) {
+							case *ssa.Field:
+								idx = x.Field
+							case *ssa.UnOp:
+								if fa, ok := x.X.(*ssa.FieldAddr); ok {
+									idx = fa.Field
+								}
+							}
+							if ld, ok := stripConv(boundRecv).(*ssa.UnOp); ok && ld.Op == token.MUL && idx >= 0 {
+								if a1, ok := ld.X.(*ssa.Alloc); ok {
+									if sv := structLitField(a1, idx); sv != nil {
+										return up(sv, nil)
+									}
+								}
+							}
+						}
+					}
 					var al *ssa.Alloc
 					switch x := cellOf(v).(type) {
 					case *ssa.FreeVar:
